@@ -1,4 +1,4 @@
-HOOK_COMMITS = ['6789b42']
+HOOK_COMMITS = ['6789b42', '4d327ac']
 NOT_APPLICABLE = {}
 COMMON_NOTE = ('Trusted: Coq 8.16.1 kernel (vm_compute, no native_compute), no axioms (Print Assumptions audited on every run), '
                'extraction via ExtrOcamlBasic only, the hand-written model and the correspondence harness (generators, Go harness built with -tags verif, canonicalisation). ')
@@ -51,5 +51,22 @@ CHECKS = {
           'Totality of the real ANTLR-generated parser is explored, not proved: mutated expressions, token soups, random bytes up to 64 KiB, deep nesting; any panic, timeout or (map and error) is a violation by itself. Correspondence: returned map / nil / error class vs the reference.',
   'note': COMMON_NOTE + 'The ANTLR 4 Go runtime and the generated lexer/parser are replaced in the model by the reference implementation; []rune conversion modelled by the UTF-8 sanitiser; strings.TrimSpace modelled with the Unicode White_Space table. Genuine defect found and fixed: quadratic error accumulation made Parse effectively non-terminating on malformed inputs of a few KiB (fix 07d24ad).',
   'technique': 'Coq proof (parser completeness w.r.t. inductive grammar derivations by mutual induction; lexer progress) + differential correspondence vs the ANTLR parser + totality exploration',
+ },
+ 'C04': {
+  'text': 'Full on the model: the async logger is an interleaving transition system (any number of producers, the worker, Stop; one rule per atomic channel operation incl. the DiscardOldest two-select loop); c04_conservation_inv is proved for every reachable state of every schedule, c04_final gives delivered+discarded=submitted, no duplicate, no phantom and disjointness once Stop has returned, c04_block that Block never discards. '
+          'Correspondence: (a) deterministic operation sequences against the real AsyncLogger with its worker parked in a gated appender, compared after every operation with the run-to-completion machine that c06_seq_refines_* proves to be a schedule of the system; (b) real concurrent runs (1-32 producers) checked against the conclusions of the theorems.',
+  'note': COMMON_NOTE + 'Modelled, not verified: that Go buffered channels, select/default and atomic.AddInt64 are the atomic operations of the rules; real schedules are sampled. Stop is only enabled while no log call is in progress (a send on the closed channel would panic in the code).',
+  'technique': 'Coq proof (invariants over an interleaving transition system, all schedules) + gated deterministic correspondence + concurrent runs checked against theorem conclusions',
+ },
+ 'C05': {
+  'text': 'Partial. Proved for the queue on every schedule: c05_stop_flushes (everything delivered, held or buffered when Stop is called is delivered in order when it returns, any occupancy, worker idle or mid-append), c05_stop_measure/bound/progress (a strictly decreasing measure <= 2*cap+5 and no deadlock: bounded time if appender calls return). Not modelled in Coq: the composition of logger kinds, Destroy ordering and OS descriptors - these are decided by the harness only: every Refresh-built logger kind (sync/async + file appender, console, file, rolling sync/async with/without .wf, rolling appender) logs events and raw writes, Destroy runs under a watchdog, sinks are read immediately, /proc/self/fd entries into the log directory are counted (<= 2 while running, 0 after).',
+  'note': COMMON_NOTE + 'Runtime residue: appender latency, OS descriptor table, fsync.',
+  'technique': 'Coq proof (flush invariant + termination measure over all schedules) + gated Stop-at-occupancy correspondence + per-kind Destroy exploration with fd accounting',
+ },
+ 'C06': {
+  'text': 'Full on the model: c06_fifo_per_producer / c06_line_ordered prove per-producer submission order for delivered ++ held ++ buffered in every reachable state of every schedule; c06_overflow_rules / c06_room state the three overflow rules of the run-to-completion machine; c06_seq_refines_* prove that machine to be a schedule of the interleaving system; c06_no_wait_on_worker proves that under Discard/DiscardOldest a producer step is always enabled whatever the worker does. '
+          'Correspondence: ALL sequences over {event, raw write, worker takes one} up to length 4 (quick) / 7 (thorough) from occupancies {0, cap-1, cap, cap+1} for the three policies, random long sequences, concurrent runs, and a stalled-appender stream (worker parked, buffer full, up to 32 concurrent producers must all return).',
+  'note': COMMON_NOTE + 'As C04. The deterministic harness allows at most one parked producer under Block.',
+  'technique': 'Coq proof (order invariant over all schedules; refinement of the sequential machine) + exhaustive bounded sequence correspondence + stalled-appender runs',
  },
 }
